@@ -130,7 +130,9 @@ func exactStrs(fs []float64) []string {
 // withExtra appends k extra ordinates (which the planar functions must ignore) to an XY coordinate.
 func withExtra(c geom.Coord, k int, salt int) geom.Coord {
 	out := append(geom.Coord{}, c[:2]...)
-	junk := []float64{math.NaN(), math.Inf(1), -1e300, 7.5, math.Inf(-1), 1e-300}
+	// finite values only: the properties quantify over finite ordinates; what must not matter is that extra ordinates EXIST
+	// and differ wildly from the x, y in play
+	junk := []float64{-1e300, 7.5, 1e300, -0.5, 1e-300, 123456789.25}
 	for i := 0; i < k; i++ {
 		out = append(out, junk[(salt+i)%len(junk)])
 	}
@@ -355,7 +357,7 @@ func locateHandler(raw json.RawMessage) map[string]any {
 		ev, _ := call(func() { b = xy.IsPointInRing(geom.XY, q, flatOf(closed, 2, 0)) })
 		inr = append(inr, b && ev == "ok")
 		b = false
-		ev, _ = call(func() { b = xy.IsOnLine(geom.XYZ, q, flatOf(closed, 3, k)) })
+		ev, _ = call(func() { b = xy.IsOnLine(geom.XYZ, withExtra(q, 1, k+1), flatOf(closed, 3, k)) })
 		onl = append(onl, b && ev == "ok")
 		b = false
 		ev, _ = call(func() {
@@ -635,7 +637,7 @@ func distHandler(raw json.RawMessage) map[string]any {
 				func() float64 { return xy.DistanceFromPointToLine(p, b, a) },
 				func() float64 { return xy.DistanceFromPointToLineString(geom.XY, p, []float64{a[0], a[1], b[0], b[1]}) },
 				func() float64 {
-					return xy.DistanceFromPointToLineString(geom.XYZ, pe, []float64{a[0], a[1], 9, b[0], b[1], -9, a[0], a[1], 5})
+					return xy.DistanceFromPointToLineString(geom.XYZ, withExtra(p, 1, k), []float64{a[0], a[1], 9, b[0], b[1], -9, a[0], a[1], 5})
 				},
 				func() float64 { return xy.PerpendicularDistanceFromPointToLine(pe, a, b) },
 			)})
@@ -907,12 +909,21 @@ func init() {
 
 // ------------------------------------------------------------------ C09 / C14
 // intOut renders f*mult when that is exactly an integer of small magnitude.
+// intOut: f * mult as an integer when it is one (ok, v), and in any case in 2^-10 fixed point (qok, q) - the measures of the
+// catalogue shapes are integers, "to within rounding" is judged on q.
 func intOut(f float64, mult float64) map[string]any {
 	v := f * mult
-	if math.IsNaN(v) || math.IsInf(v, 0) || v != math.Trunc(v) || math.Abs(v) > 2e9 {
-		return map[string]any{"ok": false, "v": 0, "x": exactStr(f)}
+	o := map[string]any{"ok": false, "v": 0, "x": exactStr(f), "qok": false, "q": 0}
+	if math.IsNaN(v) || math.IsInf(v, 0) {
+		return o
 	}
-	return map[string]any{"ok": true, "v": int(v), "x": exactStr(f)}
+	if q := math.Round(v * 1024); math.Abs(q) < 2e9 {
+		o["qok"], o["q"] = true, int(q)
+	}
+	if v == math.Trunc(v) && math.Abs(v) <= 2e9 {
+		o["ok"], o["v"] = true, int(v)
+	}
+	return o
 }
 
 func xyExtra(p []int, stride int, salt int) geom.Coord {
@@ -949,12 +960,12 @@ func measureOf(g measurer) map[string]any {
 	ev, msg := call(func() { out["a2"] = intOut(g.Area(), 2) })
 	if ev != "ok" {
 		out["pan"] = "Area: " + msg
-		out["a2"] = map[string]any{"ok": false, "v": 0, "x": "panic"}
+		out["a2"] = map[string]any{"ok": false, "v": 0, "x": "panic", "qok": false, "q": 0}
 	}
 	ev, msg = call(func() { out["len"] = intOut(g.Length(), 1) })
 	if ev != "ok" {
 		out["pan"] = "Length: " + msg
-		out["len"] = map[string]any{"ok": false, "v": 0, "x": "panic"}
+		out["len"] = map[string]any{"ok": false, "v": 0, "x": "panic", "qok": false, "q": 0}
 	}
 	return out
 }
@@ -973,7 +984,7 @@ func measureHandler(raw json.RawMessage) map[string]any {
 	var whole measurer
 	fail := func(err error) map[string]any {
 		out["seterr"] = err.Error()
-		out["whole"] = map[string]any{"pan": "", "a2": map[string]any{"ok": false, "v": 0, "x": ""}, "len": map[string]any{"ok": false, "v": 0, "x": ""}}
+		out["whole"] = map[string]any{"pan": "", "a2": map[string]any{"ok": false, "v": 0, "x": "", "qok": false, "q": 0}, "len": map[string]any{"ok": false, "v": 0, "x": "", "qok": false, "q": 0}}
 		return out
 	}
 	switch c.K {
@@ -1122,7 +1133,7 @@ func centroidHandler(raw json.RawMessage) map[string]any {
 				ev, msg = call(func() { ro["sa2"] = intOut(xy.SignedArea(layout, fc), 2) })
 				if ev != "ok" {
 					ro["pan"] = msg
-					ro["sa2"] = map[string]any{"ok": false, "v": 0, "x": "panic"}
+					ro["sa2"] = map[string]any{"ok": false, "v": 0, "x": "panic", "qok": false, "q": 0}
 				}
 				rings = append(rings, ro)
 			}
@@ -1146,7 +1157,11 @@ func centroidHandler(raw json.RawMessage) map[string]any {
 			}
 			lines = append(lines, ls)
 			lr := geom.NewLinearRing(layout)
-			if _, err := lr.SetCoords(ring1(shiftRing(l, c.Off), stride, 10*i)); err != nil {
+			lc := l // the linear ring is the CLOSED line (first point repeated when the line is open)
+			if len(l) > 0 && (l[0][0] != l[len(l)-1][0] || l[0][1] != l[len(l)-1][1]) {
+				lc = append(append([][]int{}, l...), l[0])
+			}
+			if _, err := lr.SetCoords(ring1(shiftRing(lc, c.Off), stride, 10*i)); err != nil {
 				panic("harness: " + err.Error())
 			}
 			lrs = append(lrs, lr)
